@@ -47,6 +47,12 @@ import (
 // shutdown must finalize the pipeline, not race the shutdown with a restart.
 var errGracefulShutdownDuringRecovery = cerrors.New("graceful shutdown during recovery backoff")
 
+// errIntentionalStopDuringRecovery is an internal sentinel returned by
+// StartWithBackoff when an operator gracefully stopped the pipeline while it was
+// parked in the recovery backoff wait. It tells runPipeline's cleanup goroutine
+// to finalize the pipeline as StatusUserStopped instead of restarting it.
+var errIntentionalStopDuringRecovery = cerrors.New("pipeline stopped during recovery backoff")
+
 type FailureEvent struct {
 	// ID is the ID of the pipeline which failed.
 	ID    string
@@ -171,6 +177,12 @@ type runnablePipeline struct {
 	// stops for an unrelated reason gets ordinary recovery semantics again, not
 	// a stale "this was user-stopped" marker from a previous run.
 	intentionalStop atomic.Bool
+
+	// forceStopped is set by stopRunnablePipeline's force branch. Killing the
+	// tomb is a no-op when the run already died with a transient error and is
+	// parked in the recovery backoff, so StartWithBackoff consults this flag
+	// after the wait: a force-stopped pipeline must degrade, never restart.
+	forceStopped atomic.Bool
 }
 
 // ConnectorService can fetch and create a connector instance, and report when
@@ -428,6 +440,10 @@ func (s *Service) stopRunnablePipeline(ctx context.Context, rp *runnablePipeline
 		}
 
 		switch {
+		case len(armedSources) == 0 && len(unarmedSources) == 0:
+			// Every worker was already stopping before this call (a repeated
+			// graceful Stop, or every source exhausted itself): there is nothing
+			// to roll back, and the marker set by the earlier Stop must survive.
 		case len(armedSources) == 0:
 			// Nothing armed: every worker's Stop call failed BEFORE setting
 			// w.stop (the only such path is acquireProcessingLock losing to
@@ -501,6 +517,7 @@ func (s *Service) stopRunnablePipeline(ctx context.Context, rp *runnablePipeline
 		// (see the switch on rp.t.Err() below) classifies it as terminal and error
 		// recovery — once wired in — never auto-restarts a pipeline the user
 		// explicitly stopped.
+		rp.forceStopped.Store(true)
 		rp.t.Kill(cerrors.FatalError(pipeline.ErrForceStop))
 		return nil
 	}
@@ -1627,6 +1644,14 @@ func (s *Service) runPipeline(rp *runnablePipeline) error {
 					if updateErr := s.pipelines.UpdateStatus(ctx, rp.pipeline.ID, pipeline.StatusSystemStopped, ""); updateErr != nil {
 						return updateErr
 					}
+				case cerrors.Is(recoveryErr, errIntentionalStopDuringRecovery):
+					// The operator stopped the pipeline while we were parked in
+					// the backoff wait. Finalize as a user stop and run the
+					// cleanup tail so the entry is removed.
+					err = nil
+					if updateErr := s.pipelines.UpdateStatus(ctx, rp.pipeline.ID, pipeline.StatusUserStopped, ""); updateErr != nil {
+						return updateErr
+					}
 				default:
 					// Recovery is exhausted (MaxRetries) or itself errored.
 					s.logger.
@@ -1804,8 +1829,20 @@ func (s *Service) StartWithBackoff(ctx context.Context, rp *runnablePipeline) er
 	// If a graceful shutdown began while we waited, do not restart — finalize a
 	// system stop instead (invariant 7). Checked after the guard so a legitimate
 	// concurrent restart still wins.
+	// Stop resolves the pipeline through runningPipelines, which during the
+	// backoff wait still holds this (already dead) run: a Stop issued while the
+	// pipeline was StatusRecovering could only mark this rp. Honor it now — a
+	// pipeline the operator stopped must not be restarted by recovery.
+	if rp.forceStopped.Load() {
+		return cerrors.FatalError(pipeline.ErrForceStop)
+	}
+
 	if s.isGracefulShutdown.Load() {
 		return errGracefulShutdownDuringRecovery
+	}
+
+	if rp.intentionalStop.Load() {
+		return errIntentionalStopDuringRecovery
 	}
 
 	return s.Start(ctx, rp.pipeline.ID)
